@@ -50,7 +50,7 @@ type Authority struct {
 	Combo
 	Dir     string // scratch directory: keys/ and bucketroot/
 	Storage *MemStorage
-	signer  *nonprod.Signer            // memkm: the key store
+	signer  *nonprod.Signer             // memkm: the key store
 	memCA   *memca.CertificateAuthority // memca: the certificate store
 	// LongLived: the storage-backed CA object is kept across commands and probes (a long-running
 	// signer process) instead of being re-created per command.
